@@ -29,7 +29,7 @@ Theorem hop_table_complete :
      forall h, h_values_exact (canon_key n) (clone_header h) = [] /\ h_has_exact (canon_key n) (clone_header h) = false) /\
   (forall h t, In t (connection_tokens h) ->
      h_values_exact (canon_key t) (clone_header h) = [] /\ h_has_exact (canon_key t) (clone_header h) = false).
-Proof. exact (conj ProxyProofs.hop_table_complete connection_named_stripped). Qed.
+Proof. exact hop_table_complete_all. Qed.
 Print Assumptions hop_table_complete.
 
 Theorem C03_host_rule : forall f q c r b added cloned,
@@ -55,11 +55,7 @@ Theorem C03_request_faithful : forall f q c,
   (forall r p qy, f_parse_target f (cq_target r) = Some (p, qy) ->
      (exists t', f_build_target f (f_escaped_path f (cq_target r)) qy = Some t') ->
      exists b added cloned, forward q f c r = ReqSent b added cloned).
-Proof.
-  exact (fun f q c Hq Hrt Hoff =>
-           conj (fun r b added cloned => request_faithful f q c r b added cloned Hq Hrt Hoff)
-                (fun r p qy => request_forwarded f q c r p qy Hq Hoff)).
-Qed.
+Proof. exact request_faithful_all. Qed.
 Print Assumptions C03_request_faithful.
 
 (** the client receives the backend's status and end-to-end headers, and a body that decodes
@@ -75,14 +71,7 @@ Theorem C03_response_content : forall f q c hs added b content,
     (w = failure 500 \/
      (w_status w = br_status b /\ same_e2e (w_headers w) (br_headers b) /\
       decode f (w_headers w) (w_body w) = Some (adapted (p_rs c) content))).
-Proof.
-  exact (fun f q c hs added b content gz H1 H2 H4 Hwf Hl Hc =>
-           match respond q f c hs added b as o
-                 return respond q f c hs added b = o -> exists w, o = Some w /\ _ with
-           | Some w => fun E => ex_intro _ w (conj eq_refl (response_content f gz q c hs added b w content H1 H2 Hwf Hl Hc E))
-           | None => fun E => False_ind _ (always_answers f q c hs added b H4 E)
-           end eq_refl).
-Qed.
+Proof. exact response_content_total. Qed.
 Print Assumptions C03_response_content.
 
 (** for EVERY combination of backend framing (Content-Length / chunked / close-delimited),
